@@ -124,3 +124,5 @@ func feOne(ch *core.Child, item map[string]any, out any) (string, string) {
 }
 
 func hexDecode(s string) ([]byte, error) { return hex.DecodeString(s) }
+
+func jsonUnmarshal(b []byte, v any) error { return json.Unmarshal(b, v) }
